@@ -1478,3 +1478,48 @@ func factOperands(f fact) (op token.Token, x, y ssa.Value, ok bool) {
 	}
 	return b.Op, x, b.Y, true
 }
+
+// arrayConst evaluates an array value built from constants: the zero value, or a composite literal all of whose
+// elements are stored as constants.
+func arrayConst(v ssa.Value) ([]int64, bool) {
+	v = unwrap(v)
+	at, ok := v.Type().Underlying().(*types.Array)
+	if !ok || at.Len() > 64 {
+		return nil, false
+	}
+	out := make([]int64, at.Len())
+	switch x := v.(type) {
+	case *ssa.Const:
+		return out, x.Value == nil
+	case *ssa.UnOp:
+		al, isAl := x.X.(*ssa.Alloc)
+		if x.Op != token.MUL || !isAl || al.Referrers() == nil {
+			return nil, false
+		}
+		for _, r := range *al.Referrers() {
+			switch y := r.(type) {
+			case *ssa.IndexAddr:
+				i, isC := constInt(y.Index)
+				if !isC || i < 0 || i >= at.Len() || y.Referrers() == nil {
+					return nil, false
+				}
+				for _, rr := range *y.Referrers() {
+					st, isSt := rr.(*ssa.Store)
+					if !isSt || st.Addr != y {
+						return nil, false
+					}
+					k, isK := constInt(st.Val)
+					if !isK {
+						return nil, false
+					}
+					out[i] = k
+				}
+			case *ssa.UnOp, *ssa.DebugRef:
+			default:
+				return nil, false
+			}
+		}
+		return out, true
+	}
+	return nil, false
+}
